@@ -101,6 +101,28 @@ func c09GenSelections(r *ev.Rand, dims, chunk []uint64, n int) []c09Sel {
 		s.Start[ax] = dims[ax] - s.Count[ax]
 		out = append(out, s)
 	}
+	if d := dims[rank-1]; d >= 20000 {
+		// wide last axis: blocks separated by gaps around 8 Ki and 16 Ki elements (64 KiB in
+		// 8- and 4-byte elements) and beyond, enumerated
+		for _, gap := range []uint64{8189, 8190, 8191, 8192, 8193, 8194, 8200, 16383, 16384, 16385, 16390} {
+			for _, blk := range []uint64{1, 2, 3} {
+				stride := blk + gap
+				cnt := (d-blk)/stride + 1
+				if cnt < 2 {
+					continue
+				}
+				if cnt > 3 {
+					cnt = 3
+				}
+				sel := c09Sel{Kind: "wide-gap+stride+block", Start: make([]uint64, rank), Count: ones(), Stride: ones(), Block: ones()}
+				sel.Start[rank-1], sel.Count[rank-1], sel.Stride[rank-1], sel.Block[rank-1] = 5, cnt, stride, blk
+				if 5+(cnt-1)*stride+blk > d {
+					sel.Start[rank-1] = 0
+				}
+				out = append(out, sel)
+			}
+		}
+	}
 	if chunk != nil { // straddle a chunk boundary in every axis
 		s := c09Sel{Kind: "chunk-straddle", Start: make([]uint64, rank), Count: make([]uint64, rank)}
 		ok := true
@@ -147,6 +169,14 @@ func c09GenSelections(r *ev.Rand, dims, chunk []uint64, n int) []c09Sel {
 				}
 				if stride == 0 {
 					stride = 1
+				}
+				// wide axes: gaps between blocks of thousands of elements (byte distances
+				// around and beyond 64 KiB), where a reader may switch strategy
+				if d >= 1000 && useStride && r.Bool() {
+					stride = block + []uint64{1000, 8189, 8190, 8191, 8192, 8193, 8200, 16384, d / 3}[r.Intn(9)]
+					if !strings.Contains(s.Kind, "wide-gap") {
+						s.Kind += "+wide-gap"
+					}
 				}
 				s.Stride[i] = stride
 			}
@@ -548,11 +578,23 @@ func c09Run(c *ev.Ctx) {
 		for i := range dims {
 			dims[i] = uint64(r.Range(1, 12))
 		}
+		wide := r.Chance(1, 12)
+		if wide { // a wide last axis (tens of thousands of elements)
+			rank = r.Range(1, 2)
+			dims = make([]uint64, rank)
+			dims[rank-1] = uint64(r.Range(20000, 50000))
+			if rank == 2 {
+				dims[0] = uint64(r.Range(2, 3))
+			}
+		}
 		kind := []string{"i32", "i64", "u32", "u64", "f32", "f64"}[r.Intn(6)]
 		op := hx.Op{K: "create_ds", Path: "/d", DT: kind, Dims: dims}
 		layoutTag := "contig"
 		if r.Chance(2, 3) {
 			op.Chunk = hx.GenChunk(r, dims, r.Intn(5))
+			if wide { // at most a few hundred chunks: the subject is the selection, not the index size
+				op.Chunk[rank-1] = uint64(r.Range(int(dims[rank-1])/200+1, int(dims[rank-1])))
+			}
 			layoutTag = "chunked"
 			if r.Chance(1, 3) {
 				op.Gzip = r.Range(1, 9)
@@ -643,7 +685,7 @@ func c09Run(c *ev.Ctx) {
 var C09 = &ev.Property{
 	ID:    "C09",
 	Level: "exploration",
-	Rule: "datasets: (1) library-written, rank 1-4, extents 1-12 per axis, contiguous / chunked (whole, non-dividing, many chunks, chunk of one, random) / filtered, six numeric kinds, superblock 0/2/3; (2) every dataset of the reference corpus whose full Read succeeds (incl. compact, big-endian, filtered). Per dataset: full extent, first element, last element, half along each axis, a selection straddling a chunk boundary in every axis, and seeded random selections with stride>1 and block>1 (30 quick / 120 thorough for library datasets, 12 / 40 for corpus datasets) are read with ReadHyperslab (and ReadSlice where applicable) and compared element-wise with the coordinates picked from the full Read in row-major selection order; seven kinds of invalid selections (start>=dim, start+count>dim, overflow near 2^64, zero count, stride past the end, rank mismatch, stride overflow) must be rejected; the chunk iterator must visit each stored chunk once and its pieces must tile the full read. " +
+	Rule: "datasets: (1) library-written, rank 1-4, extents 1-12 per axis (one in twelve with a last axis of 20 000-50 000 elements; on those, selections with blocks of 1-3 separated by gaps of 8189..8200 and 16383..16390 elements are enumerated), contiguous / chunked (whole, non-dividing, many chunks, chunk of one, random) / filtered, six numeric kinds, superblock 0/2/3; (2) every dataset of the reference corpus whose full Read succeeds (incl. compact, big-endian, filtered). Per dataset: full extent, first element, last element, half along each axis, a selection straddling a chunk boundary in every axis, and seeded random selections with stride>1 and block>1 (30 quick / 120 thorough for library datasets, 12 / 40 for corpus datasets) are read with ReadHyperslab (and ReadSlice where applicable) and compared element-wise with the coordinates picked from the full Read in row-major selection order; seven kinds of invalid selections (start>=dim, start+count>dim, overflow near 2^64, zero count, stride past the end, rank mismatch, stride overflow) must be rejected; the chunk iterator must visit each stored chunk once and its pieces must tile the full read. " +
 		"distinct = dataset descriptor (layout, dims, chunk, type) or corpus dataset path; every dataset with a successful full read is non-trivial.",
 	Assumptions: []string{
 		"the dataset's own full Read is the reference (its correctness is decided by C01/C06)",
